@@ -2,7 +2,7 @@
 # usage: tools/runall.sh [tier] [seed...]  — runs every registered check, prints one summary line each
 tier="${1:-quick}"; shift
 seeds="${@:-1}"
-cd /verif
+cd "$(dirname "$0")/.."
 for s in $seeds; do
 for id in C01 C02 C03 C04 C05 C06 C07 C08 C09 C10 C11 C12 C13 C14 C15 C16 C17 C18 C19 C20; do
   out=$(VERIF_SEED=$s timeout 7200 bin/check $id $tier 2>&1); rc=$?
